@@ -217,7 +217,7 @@ theorem writeFile_shape (tmp dst : Path) (N mode : Nat) (pieces : List Bytes) (f
         exfalso
         by_cases h1 : w.1 ≠ .ok
         · rw [if_pos h1] at h; exact h1 h
-        · rw [if_neg h1] at h; cases h
+        · rw [if_neg h1] at h; cases fault <;> simp [Fault.stopRes] at h
       · intro h; exact absurd h hne1
     · intro h; exact absurd h hne1
   · rw [if_neg hfail]
@@ -254,6 +254,7 @@ theorem writeFile_shape (tmp dst : Path) (N mode : Nat) (pieces : List Bytes) (f
 def Fault.fires (N : Nat) (pieces : List Bytes) : Fault → Prop
   | .none => False
   | .callback _ => True
+  | .panic _ => True
   | .write k => k < (chunks N pieces).length
   | .close => True
   | .rename => True
@@ -267,6 +268,14 @@ theorem writeFile_ok_iff (tmp dst : Path) (N mode : Nat) (pieces : List Bytes) (
     simp only [hcreate, Fault.writeAt, attempted, writeAll_none]
     simp [Fault.isCallback, File.commit, File.close, openFile, Fault.fires]
   | callback j =>
+    simp only [Fault.fires, not_true_eq_false, iff_false]
+    unfold writeFileClosed
+    simp only [Fault.isCallback, or_true, if_true]
+    intro h
+    split at h
+    · rename_i h1; exact h1 h
+    · cases h
+  | panic j =>
     simp only [Fault.fires, not_true_eq_false, iff_false]
     unfold writeFileClosed
     simp only [Fault.isCallback, or_true, if_true]
@@ -804,17 +813,17 @@ theorem after_after (tmp dst : Path) (b : BW) (cs cs2 : List Bytes) (buf1 buf2 :
   simp only [hok, if_true, writeAll_append, hm]
 
 /-- once the sticky error is set a callback that keeps writing does not touch the file any more -/
-theorem callback_keep_err (N : Nat) (f : File) (b : BW) (hb : b.err = true) (ps : List Bytes) :
-    callback N f .swallowKeep b none ps = (b, .ok, []) := by
+theorem callback_keep_err (N : Nat) (f : File) (stop : Res) (b : BW) (hb : b.err = true) (ps : List Bytes) :
+    callback N f .swallowKeep stop b none ps = (b, .ok, []) := by
   induction ps with
   | nil => simp [callback]
   | cons p ps ih => simp [callback, BW.write, hb, ih]
 
 /-- the callback without an error of its own = chunking all pieces + writing the chunks until one fails; it returns
     the write error only if it propagates errors -/
-theorem callback_sim (N : Nat) (tmp dst : Path) (cb : CbMode) (ps : List Bytes) :
+theorem callback_sim (N : Nat) (tmp dst : Path) (cb : CbMode) (stop : Res) (ps : List Bytes) :
     ∀ b : BW, b.err = false →
-      callback N (openFile tmp dst) cb b none ps =
+      callback N (openFile tmp dst) cb stop b none ps =
         ((after (openFile tmp dst) b (feed N b.buf ps).1 (feed N b.buf ps).2).1,
          (if (after (openFile tmp dst) b (feed N b.buf ps).1 (feed N b.buf ps).2).1.err = true ∧ cb = .propagate
           then .errno else .ok),
@@ -859,16 +868,16 @@ theorem callback_sim (N : Nat) (tmp dst : Path) (cb : CbMode) (ps : List Bytes) 
       | swallowStop => simp [errBW]
       | swallowKeep =>
         simp only [errBW, true_and, reduceCtorEq, if_false]
-        have := callback_keep_err N (openFile tmp dst) errBW rfl ps
+        have := callback_keep_err N (openFile tmp dst) stop errBW rfl ps
         simp only [errBW] at this
         rw [this]
         simp
 
 /-- a callback that fails by itself after `j` pieces (no write fault): the chunks of the first `j` pieces -/
-theorem callback_cbfail (N : Nat) (tmp dst : Path) (cb : CbMode) (ps : List Bytes) :
+theorem callback_cbfail (N : Nat) (tmp dst : Path) (cb : CbMode) (stop : Res) (ps : List Bytes) :
     ∀ (b : BW) (j : Nat), b.err = false → b.failIn = none →
-      (callback N (openFile tmp dst) cb b (some j) ps).2 =
-        (.cb, (feed N b.buf (ps.take j)).1.map (Act.write tmp)) := by
+      (callback N (openFile tmp dst) cb stop b (some j) ps).2 =
+        (stop, (feed N b.buf (ps.take j)).1.map (Act.write tmp)) := by
   induction ps with
   | nil => intro b j _ _; simp [callback, feed]
   | cons p ps ih =>
@@ -918,7 +927,7 @@ theorem writeFile_closed_nocb (tmp dst : Path) (N mode : Nat) (pieces : List Byt
     cases fault <;> first | rfl | (simp [Fault.isCallback] at hic)
   unfold writeFile writeFileClosed
   simp only [hcreate, hcb, hatt, hic, Bool.false_eq_true, or_false]
-  rw [callback_sim N tmp dst cb pieces _ rfl]
+  rw [callback_sim N tmp dst cb _ pieces _ rfl]
   simp only
   -- the chunks of the callback, then the chunk of the final Flush
   have hch : chunks N pieces = (feed N [] pieces).1 ++ flush (feed N [] pieces).2 := rfl
@@ -970,7 +979,13 @@ theorem writeFile_closed (tmp dst : Path) (N mode : Nat) (pieces : List Bytes) (
     have hcreate : File.create tmp dst mode = (openFile tmp dst, [.createExcl tmp mode]) := rfl
     unfold writeFile writeFileClosed
     simp only [hcreate, Fault.cbAt, Fault.writeAt, Fault.isCallback, attempted, or_true, if_true]
-    rw [callback_cbfail N tmp dst cb pieces _ j rfl rfl, writeAll_none]
-    simp
+    rw [callback_cbfail N tmp dst cb _ pieces _ j rfl rfl, writeAll_none]
+    simp [Fault.stopRes]
+  | panic j =>
+    have hcreate : File.create tmp dst mode = (openFile tmp dst, [.createExcl tmp mode]) := rfl
+    unfold writeFile writeFileClosed
+    simp only [hcreate, Fault.cbAt, Fault.writeAt, Fault.isCallback, attempted, or_true, if_true]
+    rw [callback_cbfail N tmp dst cb _ pieces _ j rfl rfl, writeAll_none]
+    simp [Fault.stopRes]
 
 end Safe
